@@ -136,14 +136,14 @@ def signatures(draw):
     if variadic:
         for _ in range(draw(st.integers(1, 14))):
             vargs.append(draw(st.sampled_from(["int", "long", "double", "void *", "unsigned", "unsigned long"])))
-    return build(g.defs, params, ret, vargs)
+    return build(g.defs, params, ret, vargs, draw(st.sampled_from([0, 0, 1, 2, 2, 3])))
 
 
 def sizeof_ok(t):
     return True
 
 
-def build(defs, params, ret, vargs):
+def build(defs, params, ret, vargs, callform=0):
     header = PROLOGUE + "extern long anchor[8];\n" + "\n".join(defs) + "\n"
     rdecl = ret.decl("") .strip() if ret is not None else "void"
     plist = [p.decl("a%d" % i) for i, p in enumerate(params)]
@@ -180,19 +180,33 @@ def build(defs, params, ret, vargs):
     for j, vt in enumerate(vargs):
         t = initgen.T("scalar", vt)
         args.append("(%s)%s" % (vt, pat(500 + j, t)))
-    call = "callee(%s)" % ", ".join(args)
+    # how the caller names the function: directly, through a pointer, or through a callee expression that itself contains calls
+    # with arguments (a selector returning the function pointer, an indexed table)
+    pre = ""
+    fn = "callee"
+    if callform == 1:
+        cb.append("\t__typeof__(callee) *fp = callee;")
+        fn = "(*fp)"
+    elif callform == 2:
+        pre = "static __typeof__(callee) *sel(int a, long b, double c) { chk_i64(a); chk_i64(b); chk_f64(c); return a == 3 ? callee : 0; }\n"
+        fn = "sel(3, anchor[1], 2.5)"
+    elif callform == 3:
+        pre = "static int idx(int a, void *p) { chk_i64(a); return a - 1 + (p == 0); }\n"
+        cb.append("\t__typeof__(callee) *tab[2] = { 0, callee };")
+        fn = "tab[idx(2, anchor)]"
+    call = "%s(%s)" % (fn, ", ".join(args))
     if ret is not None:
         cb.append("\t%s = %s;" % (ret.decl("r"), call))
         for path, lt in leaves(ret, "r"):
             cb.append("\t" + chk(path, lt))
     else:
         cb.append("\t%s;" % call)
-    caller = header + proto + ";\nlong anchor[8] = { 1, 2, 3, 4, 5, 6, 7, 8 };\nint main(void) {\n" + "\n".join(cb) + "\n\treturn 0;\n}\n"
+    caller = header + proto + ";\nlong anchor[8] = { 1, 2, 3, 4, 5, 6, 7, 8 };\n" + pre + "int main(void) {\n" + "\n".join(cb) + "\n\treturn 0;\n}\n"
     agg = any(p.kind != "scalar" for p in params) or (ret is not None and ret.kind != "scalar")
     single = all(p.kind == "scalar" or len(list(leaves(p, "x"))) <= 1 for p in params)
     # structural table source: sizeof/_Alignof and leaf offsets of every aggregate type by tag
     return {"callee": callee, "caller": caller, "proto": proto, "nfixed": len(params), "variadic": bool(vargs), "nontrivial": bool(vargs) or (agg and not single), "defs": defs,
-            "labels": (["variadic"] if vargs else []) + (["aggregate"] if agg else []) + ["params:%d" % len(params)]}
+            "labels": (["variadic"] if vargs else []) + (["aggregate"] if agg else []) + ["params:%d" % len(params), "callform:%d" % callform]}
 
 
 def build_side(ctx, d, name, src, how):
